@@ -32,6 +32,11 @@ import (
 var fuzzStats *Stats
 var fuzzExecs int
 
+// underNativeFuzz is set by the rapid-based fuzz targets: the Go fuzzing engine kills a worker whose
+// execution takes longer than about a second and reports that as a failure, so the multi-GiB size-field
+// flips of C21 (seconds per record) are left to TestC21.
+var underNativeFuzz bool
+
 func fuzzStat(prop string) *Stats {
 	if fuzzStats == nil {
 		fuzzStats = NewStats(prop)
@@ -254,6 +259,7 @@ func fuzzProperty(f *testing.F, prop string, gen *rapid.Generator[Case], run Run
 		f.Add(b)
 	}
 	f.Fuzz(rapid.MakeFuzz(func(rt *rapid.T) {
+		underNativeFuzz = true
 		st := fuzzStat(prop)
 		defer fuzzFlush()
 		c := gen.Draw(rt, "case")
